@@ -187,6 +187,10 @@ fn cmd_net_replay(a: &HashMap<String, String>) -> i32 {
         } else if let Some(m) = r.mismatch {
             bad += 1;
             let _ = writeln!(out, "{}", json!({"mismatch": m, "line": lineno + 1, "mode": s.mode, "flavor": s.flavor, "verify": s.verify, "behaviour": v, "events": r.events}));
+            // a connection that stalls costs the full time limit per behaviour: a dozen mismatches decide the check
+            if bad >= 12 {
+                break;
+            }
         } else {
             ok += 1;
         }
